@@ -12,9 +12,12 @@ import (
 	"fmt"
 	"io"
 	"os"
+	"regexp"
+	"sort"
 	"strings"
 	"testing"
 	"time"
+	"verif/internal/after"
 
 	"github.com/titpetric/vuego"
 	xhtml "golang.org/x/net/html"
@@ -281,6 +284,74 @@ func check(c Case) error {
 			}
 		}
 		return nil
+	case "afterfail":
+		// failed and aborted calls first - in the process (pools) and, for odd K, on the very
+		// base template the program is then rendered from (its stack, remembered error,
+		// buffers): the render under test returns nil and the writer receives exactly the
+		// document a fresh engine produces
+		if p.Fails {
+			return nil
+		}
+		var ref bytes.Buffer
+		if err := p.Run(ctx, c.Entry, &ref); err != nil {
+			return fmt.Errorf("%s/%s: reference render failed: %v", c.Prog, c.Entry, err)
+		}
+		// every identifier the program's files mention: data keys and, more telling, names the
+		// templates read WITHOUT the data defining them (a stale binding shows there)
+		seen := map[string]bool{}
+		for k := range p.GoData() {
+			seen[k] = true
+		}
+		for _, src := range p.Files {
+			for _, id := range identRe.FindAllString(src, -1) {
+				if len(seen) < 80 {
+					seen[id] = true
+				}
+			}
+		}
+		var names []string
+		for k := range seen {
+			names = append(names, k)
+		}
+		sort.Strings(names)
+		root := p.Engine(p.FS())
+		after.Poison(names)
+		if c.K%2 == 1 {
+			after.FailOn(root, names)
+		}
+		w := newSink(c.Dest)
+		runIt := func() error { return p.RunOn(ctx, root, c.Entry, w.W) }
+		if c.K%4 == 3 {
+			// the failed calls are made on the very template object that renders the page
+			runIt = func() error {
+				d := p.GoData()
+				var t vuego.Template
+				if c.Entry == "load" {
+					t = root.Load("page.vuego").Fill(d)
+				} else {
+					t = root.New().Fill(d)
+				}
+				after.FailOn(t, names)
+				switch c.Entry {
+				case "load":
+					return t.Render(ctx, w.W)
+				case "file":
+					return t.RenderFile(ctx, w.W, "page.vuego")
+				case "string":
+					return t.RenderString(ctx, w.W, p.Files["page.vuego"])
+				case "byte":
+					return t.RenderByte(ctx, w.W, []byte(p.Files["page.vuego"]))
+				}
+				return t.RenderReader(ctx, w.W, strings.NewReader(p.Files["page.vuego"]))
+			}
+		}
+		if err := runIt(); err != nil {
+			return fmt.Errorf("%s/%s: after failed and aborted calls (on other engines%s) the render returned %v; alone it succeeds", c.Prog, c.Entry, map[bool]string{true: " and on the same base template", false: ""}[c.K%2 == 1], err)
+		}
+		if got := w.Got(); !bytes.Equal(got, ref.Bytes()) {
+			return fmt.Errorf("%s/%s: after failed and aborted calls (on other engines%s) the render returned nil but the writer got %d bytes that differ from the %d bytes a fresh engine writes (stale marker %q)\n--- got: %.600s\n--- fresh: %.600s", c.Prog, c.Entry, map[bool]string{true: " and on the same base template", false: ""}[c.K%2 == 1], len(got), ref.Len(), after.Leaked(string(got)), got, ref.Bytes())
+		}
+		return nil
 	case "fullcount":
 		// a destination that takes every byte (full count) but reports an error on the write
 		// that reaches offset K: the failure it reported has to surface
@@ -370,6 +441,8 @@ func stringWriter(dest string, w io.Writer) io.Writer {
 	}
 	return w
 }
+
+var identRe = regexp.MustCompile(`[A-Za-z_][A-Za-z0-9_]{1,20}`)
 
 // sink is the destination writer of a case together with a way to read what reached it.
 type sink struct {
@@ -547,6 +620,9 @@ func TestProp(t *testing.T) {
 			}
 			each(Case{Prog: p.Name, Entry: e, Mode: "cancel"})
 			each(Case{Prog: p.Name, Entry: e, Mode: "closedfile"})
+			each(Case{Prog: p.Name, Entry: e, Mode: "afterfail", K: 0})
+			each(Case{Prog: p.Name, Entry: e, Mode: "afterfail", K: 1, Dest: dests[(len(p.Name)+len(e))%len(dests)]})
+			each(Case{Prog: p.Name, Entry: e, Mode: "afterfail", K: 3})
 			for _, k := range []int{0, 1, 7, 40} {
 				each(Case{Prog: p.Name, Entry: e, Mode: "fullcount", K: k})
 			}
@@ -662,7 +738,7 @@ func TestProp(t *testing.T) {
 	// random combination (keeps the rapid path and shrinking available for seeded changes)
 	names := cat.Names()
 	run.Rapid(t, rec, "random", func(t *rapid.T) Case {
-		c := Case{Prog: rapid.SampledFrom(names).Draw(t, "prog"), Entry: rapid.SampledFrom(cat.Entries).Draw(t, "entry"), Mode: rapid.SampledFrom([]string{"ref", "failat", "cancel", "deadline", "failnth", "refuse", "cancelmid", "procfail", "fullcount", "closedfile"}).Draw(t, "mode")}
+		c := Case{Prog: rapid.SampledFrom(names).Draw(t, "prog"), Entry: rapid.SampledFrom(cat.Entries).Draw(t, "entry"), Mode: rapid.SampledFrom([]string{"ref", "failat", "cancel", "deadline", "failnth", "refuse", "cancelmid", "procfail", "fullcount", "closedfile", "afterfail"}).Draw(t, "mode")}
 		c.K = rapid.IntRange(0, 700).Draw(t, "k")
 		c.Dest = rapid.SampledFrom(dests).Draw(t, "dest")
 		if (c.Mode == "failat" || c.Mode == "failnth" || c.Mode == "refuse" || c.Mode == "fullcount") && rapid.Bool().Draw(t, "sw") {
